@@ -74,7 +74,12 @@ func NewOption(file *paths.Path, match []string) *Option {
 // Clean removes selected directive line from input string.
 // Useful to remove directive text applied on some condition only
 func (o *Option) Clean(input string) string {
-	return strings.Replace(input, o.Raw, o.cleanKeyword(o.Raw), 1)
+	reg := regexp.MustCompile(`(?m)^` + regexp.QuoteMeta(o.Raw) + `$`)
+	loc := reg.FindStringIndex(input)
+	if loc == nil {
+		return input
+	}
+	return input[:loc[0]] + o.cleanKeyword(o.Raw) + input[loc[1]:]
 }
 
 // cleanKeyword removes the dirextive keywork (#aa:...) from the input string
